@@ -1,3 +1,4 @@
 import CohdlVerif.Model.DriverLoop
--- model driver of property C03 (stub: no model entry points yet)
-def main : IO Unit := CohdlVerif.driverLoop (fun _ => "bad-op")
+import CohdlVerif.Model.C03Driver
+-- model driver of property C03: `Seq.activate` / `procStep ∘ lowerSeq` on generated context bodies
+def main : IO Unit := CohdlVerif.driverLoop CohdlVerif.C03.handle
